@@ -18,6 +18,7 @@
 package tsdb
 
 import (
+	"errors"
 	"fmt"
 	"io"
 	"strconv"
@@ -31,6 +32,7 @@ import (
 	"go.uber.org/atomic"
 
 	"github.com/lindb/lindb/config"
+	"github.com/lindb/lindb/constants"
 	"github.com/lindb/lindb/flow"
 	"github.com/lindb/lindb/kv"
 	"github.com/lindb/lindb/metrics"
@@ -392,17 +394,22 @@ func (f *dataFamily) MemDBSize() int64 {
 // if it finds data then returns the FilterResultSet, else returns nil
 func (f *dataFamily) Filter(executeCtx *flow.ShardExecuteContext) (resultSet []flow.FilterResultSet, err error) {
 	f.lastReadTime.Store(fasttime.UnixMilliseconds())
+	// NOTE: not found of one side(memory database doesn't know the field/series, no table file matches them)
+	// cannot discard the data which the other side found.
 	memRS, err := f.memoryFilter(executeCtx)
-	if err != nil {
+	if err != nil && !errors.Is(err, constants.ErrNotFound) {
 		return nil, err
 	}
 	fileRS, err := f.fileFilter(executeCtx)
-	if err != nil {
+	if err != nil && !errors.Is(err, constants.ErrNotFound) {
 		return nil, err
 	}
 	resultSet = append(resultSet, memRS...)
 	resultSet = append(resultSet, fileRS...)
-	return
+	if len(resultSet) == 0 {
+		return nil, constants.ErrNotFound
+	}
+	return resultSet, nil
 }
 
 // GetState returns the current state include memory database state.
@@ -454,6 +461,10 @@ func (f *dataFamily) GetState() models.DataFamilyState {
 func (f *dataFamily) memoryFilter(shardExecuteContext *flow.ShardExecuteContext) (resultSet []flow.FilterResultSet, err error) {
 	memFilter := func(memDB memdb.MemoryDatabase) error {
 		rs, err := memDB.Filter(shardExecuteContext)
+		if errors.Is(err, constants.ErrNotFound) {
+			// maybe other memory database has the data
+			return nil
+		}
 		if err != nil {
 			return err
 		}
